@@ -25,7 +25,7 @@ RULE = ("case = one generated flatten-ready netlist (named instances/cables, dep
         "on its elements; every sixth case a bundled EDIF example as read by the EDIF reader) -> uniquify -> flatten; "
         "distinct = shape+partition hash; non-trivial = hierarchy depth >= 2 and at least one endpoint class that "
         "crosses two or more levels (contains endpoints of different path lengths or top port bits and depth>=2 leaves)")
-ASSUMPTIONS = ["instance and cable names contain no '/'", "netlist uniquified first (quantifier of C09)"]
+ASSUMPTIONS = ["instance and cable names contain no '/' except as the first character of a name directly under the top", "netlist uniquified first (quantifier of C09)"]
 REQUIRED = {"flattened": 100, "endpoint_classes_compared": 1000, "leaf_occurrences_compared": 500,
             "netlists_with_identifiers": 30, "reader_produced_netlists": 10}
 PROBES = {}
@@ -111,6 +111,16 @@ def run_case(ctx, i, rng):
                         if x_.name and rng.random() < 0.8:
                             x_["EDIF.identifier"] = x_.name.replace("[", "_").replace("]", "_")
             ctx.count("netlists_with_identifiers")
+    if i % 5 == 2:
+        # names are free text: an instance or cable directly under the top may itself start with the path separator
+        topd = n.top_instance.reference
+        for x_ in list(topd.children)[:2] + list(topd.cables)[:1]:
+            if x_.name and not x_.name.startswith("/") and "EDIF.identifier" not in x_:
+                try:
+                    x_.name = "/" + x_.name
+                    ctx.count("top_level_names_starting_with_separator")
+                except ValueError:
+                    pass
     uniquify(n)
     e0 = Elab(n, max_occ=2500)
     if e0.truncated:
